@@ -327,7 +327,23 @@ def model_task_view(t):
     return [t[0], "err", t[1][1]]
 
 
-def compare(r, m, observables=("status", "decision", "modules", "global_env", "module_env", "outfile", "tasks", "ninja")):
+LOADED_FIELDS = ("name", "context", "selects", "imports", "provides", "conflicts", "sources", "sources_optional", "srcdir", "relpath",
+                 "is_build_dep", "is_global_build_dep", "build_dep_files", "has_build", "has_download", "notify_all",
+                 "env_local", "env_export", "env_global")
+
+
+def canon_loaded(mod, side):
+    """the loaded view of a selected module (implementation: verif::module_json; model: Driver moduleJ), field by field"""
+    out = {}
+    for f in LOADED_FIELDS:
+        v = mod.get(f)
+        if f == "sources_optional" and v is not None:
+            v = sorted([k, list(x)] for k, x in (v.items() if isinstance(v, dict) else v))
+        out[f] = v
+    return out
+
+
+def compare(r, m, observables=("status", "decision", "modules", "loaded", "global_env", "module_env", "outfile", "tasks", "ninja")):
     """returns a list of (observable, description) differences between implementation run r and model answer m"""
     diffs = []
     si, sm = impl_status(r), model_status(m)
@@ -356,6 +372,16 @@ def compare(r, m, observables=("status", "decision", "modules", "global_env", "m
             if am != b["modules"]:
                 diffs.append(("modules", f"{k}: impl {am} model {b['modules']}"))
                 continue
+        if "loaded" in observables and "loaded" in b:
+            la = [canon_loaded(x, "impl") for x in a["modules"]]
+            lb = [canon_loaded(x, "model") for x in b["loaded"]]
+            for x, y in zip(la, lb):
+                bad = [f for f in LOADED_FIELDS if x[f] != y[f]]
+                if bad:
+                    diffs.append(("loaded", f"{k} module {x['name']}: " + "; ".join(f"{f}: impl {x[f]!r} model {y[f]!r}" for f in bad[:3])))
+                    break
+            if len(la) != len(lb):
+                diffs.append(("loaded", f"{k}: {len(la)} vs {len(lb)} loaded modules"))
         if "global_env" in observables:
             ga = [kv for kv in a["global_flat"] if kv[0] != "out"]
             gb = [kv for kv in b["global_flat"] if kv[0] != "out"]
